@@ -41,6 +41,12 @@ CHECKS["C08"] = ("small-scope exhaustive enumeration of all well-formed programs
 CHECKS["C09"] = ("bounded-exhaustive enumeration of every catalog shape x products of adversarial register/segment values over the registers it reads x memory backgrounds, executed on the real Interpreter built with integer-overflow checks; panics caught; CLI runs for the interrupt services at the top of memory",
     "About 13 000 instruction shapes (every mnemonic x operand form x address form x override) x adversarial products (offsets/values/segments that make seg*16+off straddle 2^20, counts, divisors) x 2 memory backgrounds: every execution must end in a defined State or a reported error - a caught panic (index out of range, arithmetic or shift overflow) or a non-terminating REPEAT is the violation; 135 CLI programs drive INT 10h/21h with buffers at 0xFFFFF.",
     "DESIGN.md section 6 C09")
+CHECKS["C10"] = ("exhaustive enumeration of the syntax.md shape catalog in both cases (plus all data-directive and print forms): every line the real Preprocessor emits is fed to the downstream parser it is destined for (real DataParser, real Interpreter in the program's own context, print parser inside the real binary)",
+    "The complete finite shape set (about 19 000 shapes x 2 cases, 132 data forms x 2, print forms x 4 radices x 2 cases): whenever the assembler accepts, the data loader / interpreter / printer must accept every emitted line; documented shapes the assembler rejects are reported too.",
+    "DESIGN.md section 6 C10")
+CHECKS["C11"] = ("exhaustive enumeration of every single spelling deviation (case per keyword token, radix per constant incl. negative decimal / OFFSET / leading zeros, separator per gap) of every catalog shape: relational oracle (identical emitted list) plus semantic oracle (emitted line executed on the real Interpreter equals the reference effect of the AST instruction)",
+    "About one million respellings of 19 000 shapes must assemble to the identical instruction list; each canonical line is executed on two distinguishing states and compared in full with the reference for the AST instruction; ordered triples keep order and count; label case sensitivity; comment placements through the real binary.",
+    "DESIGN.md section 6 C11")
 NOT_YET = {}
 
 def main():
